@@ -94,6 +94,23 @@ Theorem validator_stream_after_header : forall bs chunks s id, id <> 0 ->
 Proof. exact sv_run_v2_proved. Qed.
 Print Assumptions validator_stream_after_header.
 
+(* pb.Snapshot.Validate (snapshot record against the files on disk): it returns true only
+   when the main file and every external file exist with EXACTLY the recorded, non-zero
+   size - shorter and longer files alike are refused (panic with the default settings) *)
+Theorem snapshot_validate_exact : forall l, panic_on_size_mismatch = true ->
+  snapshot_validate l = PvTrue -> l <> [] /\ Forall pv_exact l.
+Proof. exact snapshot_validate_exact_proved. Qed.
+Print Assumptions snapshot_validate_exact.
+
+Example ex_snapshot_validate :
+  panic_on_size_mismatch = true /\
+  snapshot_validate [(true, 1040, Some 1040); (true, 7, Some 7)] = PvTrue /\
+  snapshot_validate [(true, 1040, Some 1041)] = PvPanic /\
+  snapshot_validate [(true, 1040, Some 1040); (true, 7, Some 8)] = PvPanic /\
+  snapshot_validate [(true, 1040, Some 1039)] = PvPanic /\
+  snapshot_validate [(true, 1040, Some 1040); (true, 0, Some 0)] = PvFalse.
+Proof. vm_compute. repeat split; reflexivity. Qed.
+
 (* ---- non-vacuity and the file level (header included), concrete instances ---- *)
 
 Definition ex_ts : N := 1789000000123456789.
